@@ -6,15 +6,16 @@ func init() {
 	register(&Prop{
 		ID: "C09",
 		Explanation: "Incentive gauges, structural clauses: the per-epoch budget is remaining = coins − distributed over remaining epochs (1 for perpetual gauges, paid-over − filled otherwise; zero remaining epochs is an error); a lock's share is lock amount × remaining coin divided (integer division, truncating) by lock sum × remaining epochs — no rounding-up operation; amounts below the minimum value are skipped, never paid; rewards go to the lock's reward receiver, or its owner when none is set; " +
-			"exactly the coins added to the pay-out list are added to the gauge's distributed total, which is booked together with one filled epoch on every successful distribution; pay-outs are sent from the incentives module to the index-aligned receiver list; upcoming gauges become active at their start time before distribution.",
+			"exactly the coins added to the pay-out list are added to the gauge's distributed total, which is booked together with one filled epoch on every successful distribution; pay-outs are sent from the incentives module to the index-aligned receiver list; upcoming gauges become active at their start time before distribution. Round 8: the active gauges are partitioned between the superfluid routine (perpetual AND synthetic denom) and the incentives hook (everything else), so a gauge is paid once per epoch.",
 		NotCovered:  []string{"sum over epochs ≤ deposit and module balance ≥ remainders over histories", "group gauges / volume splitting", "concentrated no-lock gauges' emission inside CL (C08)"},
 		Assumptions: []string{"bank SendCoinsFromModuleToManyAccounts pays inputs[i] to addrs[i]"},
-		MinObl:      42,
+		MinObl:      43,
 		Run:         runC09,
 	})
 }
 
 func runC09(c *rules.Ctx) {
+	gaugeEpochPartitionRules(c)
 	const K = "x/incentives/keeper.Keeper."
 	const D = K + "distributeInternal"
 	c.Let("REMAIN", "sdk.Coins.Sub(gauge.Coins, gauge.DistributedCoins)")
